@@ -11,6 +11,9 @@
 #include <string>
 #include <vector>
 
+#include <sys/mman.h>
+#include <unistd.h>
+#include <cstring>
 #include "iora/parsers/json.hpp"
 #include "hexutil.hpp"
 
@@ -151,8 +154,35 @@ static std::string handle(const std::string &line)
     std::vector<char> buf(text.begin(), text.end());
     buf.shrink_to_fit();
     auto r = Json::parse(std::string_view(buf.data(), buf.size()), lim);
-    if (r.ok) return "OK " + dump(r.value);
-    return "ERR " + std::to_string(r.error.where.offset);
+    std::string res = r.ok ? "OK " + dump(r.value) : "ERR " + std::to_string(r.error.where.offset);
+    // the input is the VIEW, not the memory behind it: (a) the same view inside a larger buffer whose following bytes
+    // would continue the last token must give the same result (library routines such as strtod are not instrumented
+    // by ASan, so an over-read through them shows only this way); (b) the view placed flush against an inaccessible
+    // page must not fault
+    for (const char *tail : {"9", "e+2", ".75", "\"", "0000000000000000000000"})
+    {
+      std::string big = text + tail;
+      auto r2 = Json::parse(std::string_view(big.data(), text.size()), lim);
+      std::string res2 = r2.ok ? "OK " + dump(r2.value) : "ERR " + std::to_string(r2.error.where.offset);
+      if (res2 != res) return "OUTSIDE-READ tail=" + hex(tail) + " exact=[" + res + "] window=[" + res2 + "]";
+    }
+    if (text.size() <= 65536)
+    {
+      const long pg = sysconf(_SC_PAGESIZE);
+      const std::size_t span = ((text.size() + pg - 1) / pg + 1) * pg;
+      char *m = static_cast<char *>(mmap(nullptr, span + pg, PROT_READ | PROT_WRITE, MAP_PRIVATE | MAP_ANONYMOUS, -1, 0));
+      if (m != MAP_FAILED)
+      {
+        mprotect(m + span, pg, PROT_NONE);
+        char *at = m + span - text.size();
+        std::memcpy(at, text.data(), text.size());
+        auto r3 = Json::parse(std::string_view(at, text.size()), lim);      // SIGSEGV here = read past the input
+        std::string res3 = r3.ok ? "OK " + dump(r3.value) : "ERR " + std::to_string(r3.error.where.offset);
+        munmap(m, span + pg);
+        if (res3 != res) return "OUTSIDE-READ guard exact=[" + res + "] guarded=[" + res3 + "]";
+      }
+    }
+    return res;
   }
   if (w[0] == "S")
   {
